@@ -12,7 +12,7 @@ META = dict(
     bounds=dict(quick='definitions: the program quantifier is ENUMERATED/SAMPLED, not solved - every single-field definition of the grammar (uint widths 1,2,3,4,8 x sign x byte order x 4 offset/mult pairs; '
                       'buffers; spares; bit-field partitions of 1-2 octets in both orders with fixed values and spares) plus 400 VERIF_SEED-sampled composite definitions (<= 6 fields, nesting depth <= 3, optional and length-prefixed fields, sequences of 0..3 items); '
                       'all VALUES and all OCTETS are symbolic and decided by the solver',
-                thorough='as quick with 4000 sampled composite definitions, bit-field sets up to 4 octets'),
+                thorough='as quick with 2500 sampled composite definitions, bit-field sets up to 3 octets'),
     stubs=['int.from_bytes / int.to_bytes / bytes.join models', 'bytes proxies', '__index__ of a symbolic int pinned by the path condition'],
     outside=['definitions outside the grammar of vf/checks/c16.py', 'mult with non-exact division: values are taken in the image of decoding (raw*mult+offset)', 'callbacks other than presence-by-flag and length-by-earlier-field'],
     assumptions=['the reference encoder/decoder in vf/checks/c16.py (written from the codec documentation, independent of codec.py) is the oracle'],
@@ -106,9 +106,9 @@ def all_single_defs(maxbits):
 
 def jobs(tier, seed):
     rnd = random.Random(1000003 * seed + 16)
-    maxbits = 4 if tier == 'thorough' else 2
+    maxbits = 3 if tier == 'thorough' else 2
     defs = all_single_defs(maxbits)
-    n = 4000 if tier == "thorough" else 400
+    n = 2500 if tier == "thorough" else 400
     seen = set(json.dumps(d) for d in defs)
     tries = 0
     while len(defs) < n + len(seen) and tries < 20 * n:
